@@ -132,6 +132,12 @@ def model_oracle(ctx, models, results) -> Dict[str, Any]:
         if stage == "timeout":
             stats["timeouts"] = stats.get("timeouts", 0) + 1
             continue
+        if stage == "frontend" and (res.get("frontend") or {}).get("status") == "rejected":
+            # the generated model is not accepted by the front end: outside the quantifier
+            stats["frontend_rejected"] = stats.get("frontend_rejected", 0) + 1
+            if stats["frontend_rejected"] > max(2, len(models) // 2):
+                raise lib.HarnessError(f"too many generated models rejected: {str(res)[:800]}")
+            continue
         if stage in ("adapter-exception", "harness-exception", "frontend", "sdk-import"):
             raise lib.HarnessError(f"model stream broke at stage {stage}: "
                                    f"{str(res)[:1500]}")
